@@ -1,0 +1,46 @@
+//go:build verif
+
+package cms
+
+// Contracts for gvc (contract-based deductive verification, see /verif/DESIGN.md).
+// Comment-only file, compiled only under the build tag "verif".
+
+// ---------------------------------------------------------------- public keys (C07, C06, C14)
+// The ASN.1 split of a SubjectPublicKeyInfo / RSAPublicKey is the trusted encoding/asn1 boundary (utils.ParseAsn1):
+// spkiAlgOid / spkiKeyBytes / rsaModN / rsaExpE name the decoded components of a byte string.
+
+//@ func Asn1decodeSubjectPublicKeyInfo
+//@   props C07 C14
+//@   ensures "components-of-the-encoding": result1 == nil ==> result0.Algorithm.Algorithm === spkiAlgOid(data) && result0.SubjectPublicKey.Bytes === spkiKeyBytes(data)
+//@        && result0.Algorithm.Parameters.FullBytes === spkiAlgParams(data)
+//@   assigns nothing
+//@   safety all
+
+//@ func validateRsaPublicKey
+//@   props C07 C14
+//@   ensures "positive-modulus-odd-exponent": result == nil ==> pubKey.N != nil && pubKey.N.val > 0 && pubKey.E > 1 && pubKey.E % 2 == 1
+//@   assigns nothing
+//@   safety all
+
+//@ func (subPubKeyInfo *SubjectPublicKeyInfo) RsaPubKey
+//@   props C07 C14
+//@   requires subPubKeyInfo != nil
+//@   ensures "key-of-the-encoding": result1 == nil ==> result0 != nil && result0.N != nil && result0.N.val == rsaModN(subPubKeyInfo.SubjectPublicKey.Bytes)
+//@        && result0.E == rsaExpE(subPubKeyInfo.SubjectPublicKey.Bytes) && result0.N.val > 0 && result0.E > 1
+//@   ensures result1 != nil ==> result0 == nil
+//@   ensures fresh(result0)
+//@   assigns nothing
+//@   safety all
+
+// ecKeyOf(keyBytes, params, curve, x, y): the library resolved the curve object and the point (x, y) from a
+// SubjectPublicKeyInfo with these key octets and algorithm parameters (curve resolution and X9.62 point decoding are
+// outside this property: C09). Trusted.
+//@ uf ecKeyOf(seq, seq, ref, int, int) bool
+//@ func (subPubKeyInfo *SubjectPublicKeyInfo) EcCurveAndPubKey
+//@   trusted
+//@   requires subPubKeyInfo != nil
+//@   ensures err == nil ==> curve != nil && *curve != nil && pubKey != nil && pubKey.X != nil && pubKey.Y != nil
+//@   ensures err != nil ==> curve == nil && pubKey == nil
+//@   ensures fresh(pubKey)
+//@   defines err == nil ==> ecKeyOf(subPubKeyInfo.SubjectPublicKey.Bytes, subPubKeyInfo.Algorithm.Parameters.FullBytes, ref(*curve), pubKey.X.val, pubKey.Y.val)
+//@   assigns nothing
